@@ -165,7 +165,10 @@ pub fn cube_jobs(kind: Kind, seed: u64, full: bool, bits_quick: usize) -> Vec<(S
         tag += 1;
         alphabet::bg_bytes(seed, 0xC0BE_0000 + tag + ((kind as u64) << 8), len)
     };
-    let bitsn = if full { 32 } else { bits_quick };
+    // thorough: the complete 2^32 input space for the single-operand 32-bit scramblers and for both
+    // halves of the SplitMix64 counter; 2^28 sub-cubes elsewhere (a 64-bit two-operand adder has a 2^128
+    // input space either way)
+    let bitsn = if full { if (w == 32 && b.is_none()) || kind == Kind::SplitMix64 { 32 } else { 28 } } else { bits_quick };
     let both = if kind == Kind::SplitMix64 { vec![false, true] } else { vec![false] };
     for &use_u32 in &both {
         if w == 32 {
